@@ -88,6 +88,9 @@ impl AutoDespawnSignal
     {
         self.0.entity
     }
+
+    #[cfg(feature = "verif_hooks")]
+    pub fn verif_strong_count(&self) -> usize { Arc::strong_count(&self.0) }
 }
 
 impl Clone for AutoDespawnSignal
